@@ -1,4 +1,5 @@
 import HpoProofs.NumReal
+import HpoProofs.Rounded
 import HpoProofs.Ic
 import HpoProps.C02
 import HpoProofs.ObsEq
@@ -9,8 +10,10 @@ import HpoProofs.Bulk
 The stored value of a term for kind `k` is computed from the pair `(n, N)` that
 `calculate_information_content` hands to `InformationContent::calculate`; `icValue` is the formula,
 written once over the numeric interface `Num` with *checked* division and evaluated here over ℝ
-(the driver evaluates the same definition in `Float32`; rounding of `f32`/`logf` is outside the
-model — label *partial*, see DESIGN.md 2.5).
+(the driver evaluates the same definition in `Float32`; the VALUE under `f32`/`logf` rounding is
+outside the theorems — label *partial*, see DESIGN.md 2.5), and a second time at `RVal R` for an
+arbitrary rounding regime `R : Rounding` (`HpoProofs/Rounded.lean`): definedness, sign, zero cases
+and monotonicity hold for EVERY correctly-rounding arithmetic (`C03_*_rounded`).
 -/
 namespace Hpo.C03
 open Hpo Hpo.C02 Group
@@ -145,7 +148,90 @@ theorem C03_bulk_is_repeated_add (o : Onto) (k : Kind) (name : List Char) (first
     o.addRecRangeFast k name first count = o.addRecRange k name first count :=
   Onto.addRecRangeFast_eq o k name first count
 
+/-! ### the sign / order clauses for EVERY correctly-rounding arithmetic
+
+`R : Rounding` (`HpoProofs/Rounded.lean`) is a structure of explicit hypotheses on a rounding
+function and a library logarithm (monotone, small integers exact, no flush to zero in the normal
+range, `lg` monotone with `lg 1 = 0`; NOT exact); `RVal R` evaluates the SAME `icValue` with every
+operation rounded: `rnd (lg (rnd (n / N)) * (-1))`.  What these theorems leave to trust is only
+that `f32` with the platform `logf` is such an arithmetic. -/
+
+/-- without annotations (or without records) the value is exactly 0 -/
+theorem C03_zero_rounded (R : Rounding) (total cur : Nat) (h : total = 0 ∨ cur = 0) :
+    (icValue (icPair total cur) : Option (RVal R)) = some ⟨0⟩ := by
+  unfold icValue icPair
+  simp only [h, if_true, or_self]
+  congr 1
+  apply RVal.ext'
+  simp
+
+/-- **Defined and never negative under rounding**: for counts `n ≤ N ≤ 65535` (the code's `u16`
+guard) no zero denominator is divided by, the argument of the logarithm is positive (never
+`ln 0 = -inf`) and the result is ≥ 0 -/
+theorem C03_nonneg_rounded (R : Rounding) (total cur : Nat) (h : cur ≤ total) (hT : total ≤ 65535) :
+    ∃ v : RVal R, (icValue (icPair total cur) : Option (RVal R)) = some v ∧ 0 ≤ v.v := by
+  by_cases h0 : total = 0 ∨ cur = 0
+  · exact ⟨_, C03_zero_rounded R total cur h0, le_refl _⟩
+  · have hc : 0 < cur := Nat.pos_of_ne_zero fun e => h0 (Or.inr e)
+    refine ⟨_, by simp only [icPair, h0, if_false]; exact icValue_rounded R hc h hT, ?_⟩
+    obtain ⟨hp, h1⟩ := ratio_bounds R hc h hT
+    apply R.rnd_nonneg
+    have := R.lg_nonpos hp h1
+    linarith
+
+/-- a term that carries every record of the kind (the root) has information content exactly 0
+under rounding as well: `rnd (N / N) = 1`, `lg 1 = 0`, `0 * (-1) = 0` (`-0.0 == 0.0` in `f32`) -/
+theorem C03_all_records_rounded (R : Rounding) (total : Nat) (hT : total ≤ 65535) :
+    (icValue (icPair total total) : Option (RVal R)) = some ⟨0⟩ := by
+  by_cases h0 : total = 0
+  · exact C03_zero_rounded R total total (Or.inl h0)
+  · have hp : 0 < total := Nat.pos_of_ne_zero h0
+    have hne : (total : ℝ) ≠ 0 := by exact_mod_cast h0
+    simp only [icPair, h0, or_self, if_false]
+    rw [icValue_rounded R hp (le_refl _) hT, div_self hne, R.rnd_one, R.lg_one]
+    congr 1
+    apply RVal.ext'
+    simp
+
+/-- **Monotone under rounding.** With the same total, more linked records never means a higher
+ROUNDED information content: every step (`rnd (n / N)`, `lg`, `* (-1)`) is monotone -/
+theorem C03_monotone_counts_rounded (R : Rounding) (total na nd : Nat) (hd : 0 < nd) (h : nd ≤ na)
+    (hN : na ≤ total) (hT : total ≤ 65535) :
+    ∀ va vd : RVal R, (icValue (icPair total na) : Option (RVal R)) = some va →
+      (icValue (icPair total nd) : Option (RVal R)) = some vd → va.v ≤ vd.v := by
+  intro va vd ha hdv
+  have hT0 : ¬ (total = 0 ∨ na = 0) := by omega
+  have hT1 : ¬ (total = 0 ∨ nd = 0) := by omega
+  simp only [icPair, hT0, hT1, if_false] at ha hdv
+  rw [icValue_rounded R (by omega) hN hT] at ha
+  rw [icValue_rounded R hd (by omega) hT] at hdv
+  injection ha with ha; injection hdv with hdv
+  subst ha; subst hdv
+  have hTp : (0 : ℝ) < total := by exact_mod_cast (show 0 < total by omega)
+  have hq : R.rnd ((nd : ℝ) / total) ≤ R.rnd ((na : ℝ) / total) := by
+    apply R.mono
+    apply div_le_div_of_nonneg_right _ hTp.le
+    exact_mod_cast h
+  have hpd := (ratio_bounds R hd (by omega : nd ≤ total) hT).1
+  have hpa := (ratio_bounds R (by omega : 0 < na) hN hT).1
+  have hl := R.lg_mono (Set.mem_Ioi.2 hpd) (Set.mem_Ioi.2 hpa) hq
+  apply R.mono
+  linarith
+
 /-! ### non-vacuity -/
+/-- the exact arithmetic is a `Rounding`, and there the rounded value is the real one -/
+example : (icValue (icPair 4 1) : Option (RVal Rounding.exact)) = some ⟨-Real.log ((1 : ℝ) / 4)⟩ := by
+  have := icValue_rounded Rounding.exact (n := 1) (N := 4) (by norm_num) (by norm_num) (by norm_num)
+  simp only [icPair]
+  rw [show ((if (4 : ℕ) = 0 ∨ (1 : ℕ) = 0 then ((0 : ℕ), (0 : ℕ)) else (1, 4)) : ℕ × ℕ) = (1, 4) by decide, this]
+  congr 1
+  apply RVal.ext'
+  simp [Rounding.exact]
+/-- … and in the genuinely inexact regime `Rounding.grid` (every result, also of `ln`, rounded
+down to a multiple of 2^-126) the theorems apply just the same -/
+example : ∃ v : RVal Rounding.grid, (icValue (icPair 4 1) : Option (RVal Rounding.grid)) = some v ∧
+    0 ≤ v.v := C03_nonneg_rounded Rounding.grid 4 1 (by norm_num) (by norm_num)
+example : Rounding.grid.rnd (((2 : ℝ)⁻¹) ^ 127) = 0 ∧ ((2 : ℝ)⁻¹) ^ 127 ≠ 0 := Rounding.grid_inexact
 example : (icValue (icPair 4 1) : Option ℝ) = some (-Real.log ((1 : ℝ) / 4)) := by
   rw [C03_value]; norm_num
 example : (icValue (icPair 0 0) : Option ℝ) = some 0 := by rw [C03_value]; simp
